@@ -20,6 +20,8 @@ def histories(chk, tier):
     p = mc_cfg(tier)
     summ_all = {"cases": 0, "checks": 0, "kinds": {}, "failures": [], "stat": {}}
     runs = [("windows", p)]
+    # three coordinates, one window, several data sets per history (the low-rank decomposition depends on the numbers)
+    runs.append(("dim3", dict(dim=3, rounds=1, counts="{4}", init0="OkOnly", initr="OkOnly", repeat=8 if tier == "quick" else 40)))
     # every initialisation class, one window
     runs.append(("init", dict(dim=2, rounds=1, counts="{2, 4}" if tier == "quick" else "{2, 3, 6}", init0="AllInit", initr="OkNan")))
     if tier != "quick":
@@ -38,7 +40,7 @@ def histories(chk, tier):
             chk.violation("spec:massmatrix", "MassMatrixUpdate invariant %s violated" % r["violated"], r["out"][-3000:])
             continue
         summ = os.path.join(C.WORK, "c08_%s.json" % name)
-        C.vh(["replay-massmatrix", outp, summ], timeout=7200)
+        C.vh(["replay-massmatrix", outp, summ], timeout=7200, env={"C08_REPEAT": str(q.get("repeat", 1))})
         os.remove(outp)
         s = json.load(open(summ))
         if s["cases"] == 0:
